@@ -191,6 +191,7 @@ OpKeys(idx, uop) ==
     CASE uop.op \in {"put", "abort", "del"} -> {uop.k}
       [] uop.op = "delr" -> {k \in Keys : InLo(k, uop.lo) /\ InHi(k, uop.hi)}
       [] OTHER -> {}
+\* what the keys of an operation become when it takes effect
 FmApply(f, uop) ==
     CASE uop.op = "put"  -> [f EXCEPT ![uop.k] = {uop.c}]
       [] uop.op = "del"  -> [f EXCEPT ![uop.k] = {Absent}]
@@ -198,6 +199,17 @@ FmApply(f, uop) ==
       [] OTHER -> f
 \* the operation that hit the fault: old or new value per key
 FmFaulted(f, uop) == [k \in Keys |-> f[k] \cup FmApply(f, uop)[k]]
+\* a LATER operation that returned normally.  A key that is still uncertain (old or new value of the failed
+\* operation) stays uncertain when the later operation did not write it: a remove that reported "absent" and a
+\* range removal that found nothing to remove log nothing, and the property lets such a key show either value
+\* for good ("...hold either their old or their new value, and this stays true for all later operations").
+Certain(f, k) == Cardinality(f[k]) = 1
+FmLater(f, uop, res) ==
+    CASE uop.op = "put" -> [f EXCEPT ![uop.k] = {uop.c}]
+      [] uop.op = "del" -> IF res.val = "true" \/ Certain(f, uop.k) THEN [f EXCEPT ![uop.k] = {Absent}] ELSE f
+      [] uop.op = "delr" -> [k \in Keys |-> IF InLo(k, uop.lo) /\ InHi(k, uop.hi)
+                                            THEN (IF Certain(f, k) THEN {Absent} ELSE f[k] \cup {Absent}) ELSE f[k]]
+      [] OTHER -> f
 FaultFails(f2, ln) ==
     LET o == ln.obs IN
     UNION {
@@ -287,7 +299,7 @@ OnImg == /\ Line.ev = "img"
 
 OnFaultOp == /\ Line.ev = "op" /\ sc.mode = "fault"
              /\ LET f2 == IF Line.fault.hit THEN FmFaulted(fm, Line.op)
-                          ELSE IF Line.res.ok THEN FmApply(fm, Line.op) ELSE FmFaulted(fm, Line.op) IN
+                          ELSE IF Line.res.ok THEN FmLater(fm, Line.op, Line.res) ELSE FmFaulted(fm, Line.op) IN
                 /\ Report(FaultFails(f2, Line))
                 /\ fm' = f2
              /\ UNCHANGED <<m, pobs, sc>>
